@@ -270,3 +270,72 @@ func VHRecvQueued() {
 		vCover("recvqueued: >= 2 values")
 	}
 }
+
+// VHRecvQueuedLong: the bulk receivers on long queues (lengths around powers of two), one
+// goroutine: exactly the queued values, in order, up to the limit; the rest stays queued.
+func VHRecvQueuedLong() {
+	lens := []int{15, 16, 17, 31, 32, 33, 63, 64, 65, 96, 128}
+	f := lens[vChoose("queued", len(lens))]
+	if f > vParam("QMAX") {
+		f = vParam("QMAX")
+	}
+	base := vInt("base")
+	vAssume(vAnd(base >= 1, base <= 1000000))
+	ch := make(chan int, f+2)
+	for i := 0; i < f; i++ {
+		ch <- base + i
+	}
+	closed := vChoose("closed", 2) == 1
+	if closed {
+		close(ch)
+	}
+	limit := []int{f, f - 1, f + 1, f / 2, 32, 1 << 20}[vChoose("limit", 6)]
+	want := limit
+	if want > f {
+		want = f
+	}
+	var got []int
+	if vChoose("full", 2) == 1 {
+		n := limit
+		if n > 1<<10 { // a buffer larger than the queue stands for any larger one
+			n = f + 1
+		}
+		backing := make([]int, n+2)
+		buf := backing[:n]
+		k := RecvQueuedFull(ch, buf)
+		vAssert(0 <= k && k <= len(buf), "RecvQueuedFull (long): count within the buffer")
+		vAssert(backing[len(buf)] == 0 && backing[len(buf)+1] == 0, "RecvQueuedFull (long): nothing written beyond len(buf)")
+		if k >= 0 && k <= len(buf) {
+			got = buf[:k]
+		}
+	} else {
+		got = RecvQueued(ch, limit)
+	}
+	vAssert(len(got) == want, "RecvQueued* (long): exactly the values already queued, up to the limit")
+	for i := range got {
+		vAssert(got[i] == base+i, "RecvQueued* (long): FIFO order, nothing invented")
+	}
+	// the rest is still queued
+	rest := 0
+	for {
+		stop := false
+		select {
+		case x, ok := <-ch:
+			if !ok {
+				stop = true
+				break
+			}
+			vAssert(x == base+want+rest, "RecvQueued* (long): the remaining values stay queued in order")
+			rest++
+		default:
+			stop = true
+		}
+		if stop {
+			break
+		}
+	}
+	vAssert(rest == f-want, "RecvQueued* (long): no value is lost")
+	if f >= 64 {
+		vCover("recvqueued long: >= 64 queued")
+	}
+}
